@@ -107,6 +107,8 @@ class _IntMeta(type):
             return x
         if type(x) is SymBool:
             return x.as_int()
+        if hasattr(type(x), "__symint__"):
+            return x.__symint__()      # harness-supplied proxy (e.g. model of a float quotient): its integer value
         if type(x) is SymStr:
             base = a[0] if a else k.get("base", 10)
             if base != 16:
